@@ -184,7 +184,7 @@ func main() {
 		"base packet is followed by a copy perturbed by one of the named mutators; C06 additionally enumerates the complete " +
 		"link-type x scope x segment-change table with validly MACed packets; non-trivial = accepted by the SCION decoder; " +
 		"distinct by (configuration, ingress, raw bytes)"
-	n := e.N(9000, 150000)
+	n := e.N(20000, 150000)
 	if *search {
 		n *= 6
 	}
